@@ -7,7 +7,7 @@ wt=/tmp/wt/confirm-$$
 git -C /repo worktree add --detach $wt HEAD >/dev/null 2>&1 || exit 2
 trap 'git -C /repo worktree remove --force '$wt' >/dev/null 2>&1' EXIT
 cd $wt
-cp "$sd/demo/$demo" "$dest"
+mkdir -p "$(dirname "$dest")"; cp "$sd/demo/$demo" "$dest"
 echo "--- without patch:"; go test -vet=off -count=1 -timeout $to -run "$run" $pkg 2>&1 | tail -3; r0=${PIPESTATUS[0]}
 P="$sd/patch.diff"; [ -f "$sd/patch.rebased.diff" ] && P="$sd/patch.rebased.diff"; git apply "$P" || { echo "patch does not apply"; exit 2; }
 echo "--- build with patch:"; go build ./... 2>&1 | tail -3; rb=${PIPESTATUS[0]}
